@@ -247,6 +247,45 @@ example : validate "K1".toList (List.replicate 34 '\'') = none ∧ validate "K1"
     validate "A LONG KEY ".toList ['x'] = some .edgeBlank ∧ validate "A LONG\tKEY".toList ['x'] = some .keyNonPrintable ∧
     validate "K1".toList "\t12".toList = some .valueNonPrintable ∧ validate "ENDPOINT".toList ['x'] = none := by decide
 
+/-- The keywords cfitsio itself interprets when it (re)reads the header of a primary image HDU before writing pixels
+    (`ffpinit` / `ffgphd`: SIMPLE, BITPIX, NAXIS, NAXISn, EXTEND, PCOUNT, GCOUNT, END; a card with one of these names
+    decides what the HDU *is*, whatever its value — observed on the real library for every one of them: a table
+    holding such a card cannot be written or is written as another structure) together with the names by which
+    `read_fits` finds HDUs (EXTNAME, HDUNAME).  Hand-written from cfitsio's source (trusted); the rest of the statement
+    is about the generated tables. -/
+def cfitsioStructural : List Str :=
+  ["SIMPLE".toList, "BITPIX".toList, "NAXIS".toList, "NAXIS1".toList, "NAXIS2".toList, "NAXIS999".toList, "EXTEND".toList,
+   "PCOUNT".toList, "GCOUNT".toList, "END".toList, "EXTNAME".toList, "HDUNAME".toList]
+
+/-- **No accepted key is a structural keyword** (the class of the PCOUNT/GCOUNT defect, repaired by 14bd540): whatever
+    `write_key` accepts, with any value, is none of the names cfitsio takes for the structure of the primary HDU — so
+    an accepted entry cannot change what the coefficient image is.  (With the source as found before the repair the
+    generated exact-name list lacks PCOUNT and GCOUNT and this theorem does not check.) -/
+theorem C16_accepted_not_structural (key val : Str) (h : validate key val = none) : key ∉ cfitsioStructural := by
+  obtain ⟨hres, _, ⟨_, hend, _, _, hext, hhdu, hp, hg⟩, _⟩ := (C16_validate_iff key val).1.mp h
+  intro hm
+  have hpre : ∀ lit : Str, (∃ p ∈ C16.reservedPrefixes, p.1 = lit) → ∀ rest : Str, key ≠ lit ++ rest := by
+    rintro lit ⟨p, hp', rfl⟩ rest rfl
+    exact hres ⟨p, hp', List.prefix_append _ _⟩
+  simp only [cfitsioStructural, List.mem_cons, List.not_mem_nil, or_false] at hm
+  rcases hm with rfl | rfl | rfl | rfl | rfl | rfl | rfl | rfl | rfl | rfl | rfl | rfl
+  · exact hpre "SIMPLE".toList ⟨("SIMPLE".toList, 6), by decide, rfl⟩ [] (by simp)
+  · exact hpre "BITPIX".toList ⟨("BITPIX".toList, 6), by decide, rfl⟩ [] (by simp)
+  · exact hpre "NAXIS".toList ⟨("NAXIS".toList, 5), by decide, rfl⟩ [] (by simp)
+  · exact hpre "NAXIS".toList ⟨("NAXIS".toList, 5), by decide, rfl⟩ ['1'] (by decide)
+  · exact hpre "NAXIS".toList ⟨("NAXIS".toList, 5), by decide, rfl⟩ ['2'] (by decide)
+  · exact hpre "NAXIS".toList ⟨("NAXIS".toList, 5), by decide, rfl⟩ ['9', '9', '9'] (by decide)
+  · exact hpre "EXTEND".toList ⟨("EXTEND".toList, 6), by decide, rfl⟩ [] (by simp)
+  · exact hp (by decide)
+  · exact hg (by decide)
+  · exact hend (by decide)
+  · exact hext (by decide)
+  · exact hhdu (by decide)
+
+/-- the hypothesis is satisfiable, and the neighbours of the structural names are ordinary keys -/
+example : validate "PCOUNTS".toList ['1'] = none ∧ validate "GCOUNT2".toList ['1'] = none ∧ validate "CHECKSUM".toList "abc".toList = none ∧
+    validate "PCOUNT".toList ['1'] = some .reserved := by decide
+
 /-- **reservedFitsKeyword is the prefix filter of its table**, for every key: `strncmp(lit, key, n) == 0` for some
     row of the generated table iff one of the literals is a prefix of the key (the same function filters the cards
     when a file is read). -/
